@@ -249,6 +249,21 @@ pub async fn status_exchange(t: &mut Tcp, frame_len: Option<usize>, wait: Durati
     }
 }
 
+/// A pinger that only looks at the status: handshake, Status Request, reads the Status Response and hangs up without a Ping.
+/// Returns "served" | "closed" | "timeout".
+pub async fn status_glance(t: &mut Tcp, wait: Duration) -> String {
+    let hs = body_handshake(770, "h", 25565, 1);
+    if !t.send_frame(0, &hs).await || !t.send_frame(0, &[]).await {
+        return "closed".into();
+    }
+    match t.recv(wait).await {
+        Recv::Frame(0, _) => "served".into(),
+        Recv::Frame(_, _) => "other".into(),
+        Recv::Eof => "closed".into(),
+        Recv::Timeout => "timeout".into(),
+    }
+}
+
 pub struct LoginObs {
     pub asked_auth_cookie: bool,
     pub enc_req_auth: Option<bool>,
